@@ -122,7 +122,7 @@ func NewTextStyle(style pr.StyleAccessor, ignoreSpacing bool) *TextStyle {
 	out.FontDescription.VariationSettings = newFontVariationSettings(style.GetFontVariationSettings())
 
 	out.FontLanguageOverride = newFontLanguageOverrride(style.GetFontLanguageOverride())
-	out.Lang = style.GetLang().S
+	out.Lang = sanitizeLang(style.GetLang().S)
 
 	out.TextDecorationLine = style.GetTextDecorationLine()
 
@@ -886,4 +886,29 @@ var lstToISO = map[fontLanguageOverride]string{
 	{'z', 'h', 's'}:      "zho",
 	{'z', 'h', 't'}:      "zho",
 	{'z', 'n', 'd'}:      "zne",
+}
+
+// sanitizeLang drops from a language tag what the shaping library can not read:
+// it indexes its tables with non ASCII runes, and past the end of a one letter tag,
+// or of a tag ending with "-" or with a one letter subtag (lang="x", lang="a-b").
+func sanitizeLang(lang string) string {
+	lang = strings.TrimSpace(lang)
+	for _, r := range lang {
+		if r >= 0x80 { // not a language tag
+			return ""
+		}
+	}
+	for {
+		n := len(lang)
+		switch {
+		case n < 2:
+			return ""
+		case lang[n-1] == '-':
+			lang = lang[:n-1]
+		case lang[n-2] == '-':
+			lang = lang[:n-2]
+		default:
+			return lang
+		}
+	}
 }
